@@ -46,6 +46,7 @@ impl ScriptCase {
             allow_ext: self.allow_ext,
             allow_buffer: self.allow_buffer,
             prior_calls: 0,
+            build_style: 0,
         }
     }
     pub fn names(&self) -> Vec<&'static str> {
@@ -62,7 +63,7 @@ pub struct NodeOut {
 /// run one node; judge the whole pickle (script + one free step + collapse tail + STOP)
 pub fn run_node(sc: &ScriptCase, oracle: TreeOracle) -> Result<NodeOut, Fail> {
     let case = sc.gencase();
-    let cfg = TraceCfg { record_steps: true, record_state: true, record_valid: true, script: sc.script.clone(), fuel: Some(3 * (sc.script.len() as u64 + 1) + 8), draw_fuel: Some(10_000_000) };
+    let cfg = TraceCfg { record_steps: true, record_state: true, record_valid: true, script: sc.script.clone(), fuel: Some(100 * (sc.script.len() as u64 + 1) + 10_000), draw_fuel: Some(10_000_000) };
     let (res, tr) = case.run_traced(cfg, None);
     let out = match res {
         Ok(o) => o,
